@@ -361,7 +361,7 @@ def c17_4(R):
             R.fail([sp.name, "enqueue-not-guarded-by(!is_remote_fin_or_later)"], "new segments are created after the remote side closed", where=t.where(), instance="no-segmentation-after-remote-fin")
 
 
-@rule("C17.5", ["C17"], ["E3"], "a RESET aborts at once, with an error unless the close handshake was answered, and without a reply",
+@rule("C17.5", ["C17", "C03"], ["E3"], "a RESET aborts at once, with an error unless the close handshake was answered, and without a reply",
       "In both ST_RESET arms of process_incoming_message state := Closed precedes the exit, so just_before_death (which emits a FIN only under !is_local_fin_or_later()) sends nothing; the exit is "
       "Err(StResetReceived) except under LastAck with hdr.ack_nr == our_fin; is_local_fin_or_later(Closed) = true.")
 def c17_5(R):
